@@ -122,6 +122,51 @@ Proof.
   rewrite Nat.eqb_refl in E. congruence.
 Qed.
 
+(* ---- the result channel: a blocking send reaches the reader whenever it reads ------------------- *)
+
+Lemma reader_receives_empty : forall (V : Type) (k : nat), @reader_receives V Empty k = [].
+Proof. intros V k; induction k as [|k IH]; cbn; auto. Qed.
+
+Theorem result_reaches_reader : forall (S : Type) (coordinator : bool) (sig : S) (cap n : nat),
+  (1 <= n)%nat -> result_channel coordinator sig cap n = [release coordinator sig].
+Proof.
+  intros S c sig cap n Hn. destruct n as [|k]; [lia|].
+  unfold result_channel, send_blocking. destruct (0 <? cap)%nat; cbn [reader_receives recv];
+    rewrite reader_receives_empty; reflexivity.
+Qed.
+
+Theorem release_ok_model : forall (S : Type) (coordinator : bool) (sig : S) (cap n : nat),
+  (1 <= n)%nat -> release_ok coordinator (got_sig (result_channel coordinator sig cap n)) = true.
+Proof.
+  intros S c sig cap n Hn. rewrite result_reaches_reader by exact Hn. destruct c; reflexivity.
+Qed.
+
+Theorem release_ok_sound : forall coordinator got, release_ok coordinator got = true -> (got = true <-> coordinator = true).
+Proof. intros [] []; cbn; intuition congruence. Qed.
+
+Theorem ecdsa_session_reader_gets : forall (S : Type) (coord : nat) (sig : S) (i cap n : nat),
+  (1 <= n)%nat -> got_sig (result_channel (Nat.eqb i coord) sig cap n) = Nat.eqb i coord.
+Proof.
+  intros S coord sig i cap n Hn. rewrite result_reaches_reader by exact Hn.
+  destruct (Nat.eqb i coord); reflexivity.
+Qed.
+
+(* the model tells a blocking send from one that gives up: on an unbuffered channel whose reader is
+   not parked the latter loses the value, however often the reader receives afterwards *)
+Theorem nonblocking_send_loses : forall (V : Type) (v : V) (n : nat),
+  reader_receives (send_nonblocking 0 false v) n = [].
+Proof. intros V v n. apply reader_receives_empty. Qed.
+
+(* ---- FROST: a retried attempt signs with the same (once-tweaked) share --------------------------- *)
+
+Theorem frost_retry_same_share : forall q neg share tweak k,
+  frost_attempt_share q neg share tweak k = derive_share q neg share tweak.
+Proof. reflexivity. Qed.
+
+Theorem derive_in_run_differs :
+  derive_in_run_share 7 false 3 2 1 <> frost_attempt_share 7 false 3 2 1.
+Proof. vm_compute. discriminate. Qed.
+
 (* the judge's view: [only_at] holds of a released-vector iff it is the coordinator's alone *)
 Lemma only_at_spec : forall coord released i0,
   only_at coord i0 released = true ->
